@@ -353,11 +353,13 @@ def corr(ctx):
         cases.extend(gen_big(ctx.rng) for _ in range(250))
     cases.extend(witness_cases())
     incon = 0
-    for i in range(0, len(cases), 4000):
-        incon += corr_scripts(ctx, cases[i:i + 4000])
+    t0 = ctx.elapsed()
+    for i in range(0, len(cases), 8000):
+        incon += corr_scripts(ctx, cases[i:i + 8000])
     if incon:
         ctx.notes.append(f"{incon} scripted cases exceeded the exploration cap of the model (inconclusive, skipped)")
     corr_retry(ctx)
+    ctx.notes.append(f"phase walls: build+audit {t0:.0f}s, correspondence {ctx.elapsed() - t0:.0f}s")
 
 
 # ----------------------------------------------------------------------------------------------
@@ -574,9 +576,12 @@ def oracle_e2e(ctx):
 
 
 def oracle(ctx):
+    t0 = ctx.elapsed()
     oracle_scripts(ctx, ctx.budget(1500, 20000), ctx.budget(500, 6000))
     oracle_retry(ctx)
+    t1 = ctx.elapsed()
     oracle_e2e(ctx)
+    ctx.notes.append(f"phase walls: scripted oracle {t1 - t0:.0f}s, end-to-end {ctx.elapsed() - t1:.0f}s")
 
 
 def search(ctx):
